@@ -438,6 +438,7 @@ func run(c *fw.Ctx, idx int) {
 		}
 		c.Cover("real-monitor")
 	}
+	shardParts := map[string]bool{}
 	next := n0 // next unused member index (max 4 peers in total at a time, 6 identities)
 	pinSeq := 0
 	steps := r.Range(4, 10)
@@ -482,6 +483,9 @@ func run(c *fw.Ctx, idx int) {
 		case "unpin":
 			var some string
 			for k := range w.pins {
+				if shardParts[k] {
+					continue // a shard entry cannot be unpinned on its own
+				}
 				some = k
 				break
 			}
@@ -775,7 +779,18 @@ func run(c *fw.Ctx, idx int) {
 				for k := 0; k < 3; k++ {
 					mk(fmt.Sprintf("movable-%d", k), 1, 1, []peer.ID{w.id(victim)})
 				}
-				w.trace = append(w.trace, fmt.Sprintf("  (before the removal: 1 pin with min=%d and 3 pins 1/1 placed on p%d)", len(in), victim))
+				// ... and a part of a sharded add (a shard entry, as the adders submit it) placed there too
+				pinSeq++
+				sp := api.PinCid(gen.Cid(88000+idx*100+pinSeq, pinSeq))
+				sp.Type, sp.MaxDepth, sp.Mode, sp.Name = api.ShardType, 1, api.PinModeRecursive, "shard-part"
+				sp.ReplicationFactorMin, sp.ReplicationFactorMax = 1, 1
+				sp.UserAllocations = []peer.ID{w.id(victim)}
+				var spOut api.Pin
+				if err := w.members[at].peer.Node.Client.CallContext(ctx, "", "Cluster", "Pin", sp, &spOut); err == nil {
+					w.pins[sp.Cid.String()] = true
+					shardParts[sp.Cid.String()] = true
+				}
+				w.trace = append(w.trace, fmt.Sprintf("  (before the removal: 1 pin with min=%d, 3 pins 1/1 and a shard entry 1/1 placed on p%d)", len(in), victim))
 				w.checkPinsets(ctx, "pre-removal-pins")
 			}
 			// pins held by the victim before
